@@ -153,8 +153,18 @@ Fixpoint over_graphs (gs : list graph) (f : graph -> list row -> outcome (list r
   | g :: rest => bind (f g rows) (fun rows' => over_graphs rest f rows')
   end.
 
-(* simpleExist: unfeasible?, rows *)
-Definition simple_exist (e : cfg) (gs : list graph) (c : clause) (t : triple) : outcome (bool * list row) :=
+(* outsideTimeBounds: a temporal predicate whose anchor lies outside [lower, upper] *)
+Definition outside_bounds (lo : lopts) (p : pred) : bool :=
+  match panchor p with
+  | None => false
+  | Some ta => (match lo_lower lo with Some l => t_before ta l | None => false end) ||
+               (match lo_upper lo with Some u => t_after ta u | None => false end)
+  end.
+
+(* simpleExist: unfeasible?, rows.  After the repair processClause hands it no graphs when the clause's predicate lies
+   outside the statement's time bounds. *)
+Definition simple_exist (e : cfg) (gs0 : list graph) (c : clause) (t : triple) (lo : lopts) : outcome (bool * list row) :=
+  let gs := if fixsb e && outside_bounds lo (tpred t) then [] else gs0 in
   bind (over_graphs gs (fun g rows => if g_exist g t then add_triples e c [t] rows else Ok rows) [])
        (fun rows => Ok (negb (existsb (fun g => g_exist g t) gs), rows)).
 
@@ -163,7 +173,8 @@ Definition simple_fetch (e : cfg) (gs : list graph) (c : clause) (lo0 : lopts) :
   match cS c, cP c, cO c with
   | Some s, Some p, Some o =>
       let t := mkTriple s p o in
-      over_graphs gs (fun g rows => if g_exist g t then add_triples e c [t] rows else Ok rows) []
+      if fixsb e && outside_bounds lo p then Ok []
+      else over_graphs gs (fun g rows => if g_exist g t then add_triples e c [t] rows else Ok rows) []
   | Some s, Some p, None =>
       over_graphs gs (fun g rows => add_triples e c (map (fun o => mkTriple s p o) (g_objects e g s p lo)) rows) []
   | Some s, None, Some o =>
